@@ -19,6 +19,11 @@ Record case := {
   c_keys : list value;                            (* the caller's keys, in AddKey order *)
   c_add : option nat;                             (* observed: index of the first key AddKey rejected *)
   c_mapadd : option bool;                         (* observed (pointer keys): AddAllMapKeys over a map keyed by all the keys returned an error *)
+  c_bulk : list (nat * bool);                     (* observed, one entry per BULK entry point driven with the caller's WHOLE key list (id, rejected):
+                                                     AddAllKeys on a set of every constructor (NewBatchKeySet, NewPrimitive/Simple/Complex/BytesKeySet), in one
+                                                     call and in two; the client functions BatchGet / BatchDelete (slice -> AddAllKeys) and, when the Go map
+                                                     holds every key of the list, BatchUpdate / BatchPartialUpdate (map -> AddAllMapKeys): rejected = an error
+                                                     and NO request reached the transport *)
   c_ids : bytes;                                  (* observed EncodeQueryParams() (only when every key was added) *)
   c_probes : list (value * option value);         (* observed LocateOriginalKey *)
   c_replies : list (list (bfield * list (bytes * option N)) * option (obs_map * obs_map * obs_map))
@@ -110,6 +115,10 @@ Section Model.
     (* set.go:55-63 AddAllMapKeys = the fold of AddKey over the map's keys in iteration order; whether it fails does not depend on
        the order (add_all_none_perm) *)
     match c_mapadd c with None => true | Some b => Bool.eqb b (match failed with Some _ => true | None => false end) end &&
+    (* set.go:45-63 + collection_batch_methods.go:124-226: every bulk entry point rejects the list (before anything is sent) exactly
+       when the fold of AddKey fails somewhere - [add_all] = None, i.e. (Props/C16.v, the add_rejects_duplicates theorems) iff two keys of the list
+       are key-equal, wherever they stand in the list *)
+    forallb (fun eb => Bool.eqb (snd eb) (match failed with Some _ => true | None => false end)) (c_bulk c) &&
     match failed with
     | Some _ => true
     | None =>
